@@ -95,6 +95,14 @@ def S_prompt(pid):
                                  "wall_ms": c.get("wall_ms")}}
 
 
+def S_foreach_close(monitor, seed_off=0):
+    """whole-engine runs of a parent workflow with a foreach step whose context is cancelled at a random instant"""
+    return {"name": "foreach-close",
+            "harness": lambda t, s: ["foreach", "-close", "-n", "20" if t == "quick" else "200", "-seed", str(s + 500 + seed_off), "-tier", t],
+            "driver": None, "monitor": monitor, "nontrivial": lambda c: bool(c.get("cancelled")),
+            "sample": lambda c: {k: c.get(k) for k in ("id", "result", "cancelled", "close_after_ms", "balance", "goroutine_delta")}}
+
+
 def engine_sample(case):
     return {"id": case.get("id"), "workflow_yaml": case.get("yaml", "")[:1200], "behaviours": case.get("behaviours"),
             "input": case.get("input"), "result": case.get("result"), "log_len": len(case.get("log", []))}
@@ -111,7 +119,8 @@ PROPS = {
         "theorems": ["Arca.Props.C01.no_blocking_send", "Arca.Props.C01.at_most_one_output", "Arca.Props.C01.no_more_outputs_once",
                      "Arca.Props.C01.error_buffer_bounded", "Arca.Props.C01.error_capacity_sufficient", "Arca.Props.C01.dead_only_by_panic"],
         "pins": RUNLOOP_PINS,
-        "streams": [S_loop(mon_c01_loop), S_loop(mon_c01_loop, fanin=True), S_engine(M.mon_c01_engine), S_prompt("C01")],
+        "streams": [S_loop(mon_c01_loop), S_loop(mon_c01_loop, fanin=True), S_engine(M.mon_c01_engine), S_prompt("C01"),
+                    S_foreach_close(M.mon_c01_engine)],
         "rule": LOOP_RULE + "; fan-in shape: one output fed by a failing step and 45 others; " + ENGINE_RULE,
     },
     "C02": {
@@ -153,6 +162,7 @@ PROPS = {
                  "step_foreach_provider_runningStep_Close", "step_foreach_provider_runningStep_run"],
         "streams": [S_engine(M.mon_c05_engine, n=(200, 2000), seed_off=13),
                     S_engine(M.mon_c05_engine, extra=["-cancel", "random"], name="engine-cancel", n=(25, 400), seed_off=17),
+                    S_foreach_close(M.mon_c05_engine, seed_off=3),
                     {"name": "probe", "harness": lambda t, s: ["probe", "-n", "12" if t == "quick" else "90", "-seed", str(s)],
                      "driver": None, "monitor": M.mon_c05_probe, "nontrivial": lambda c: c.get("mode") != "ok",
                      "sample": lambda c: {k: c.get(k) for k in ("id", "mode", "victim", "prepared", "probe_balance", "goroutine_delta", "err")}}],
